@@ -925,6 +925,17 @@ def gen_linmodel(ctx, g):
     for n in range(1, 6):
         for perm in itertools.permutations(range(n)):
             add(n, perm, n, n, "permutation")
+    # indices over the whole range of std::size_t: values that are out of range but whose low 31 / 32 bits (or whose
+    # value as a signed 32 / 64 bit number) name a valid component, at every position of short lists of valid indices
+    for n in range(1, 6):
+        for k in range(n):
+            huge = [2 ** 31 + k, 2 ** 32 + k, 3 * 2 ** 32 + k, 2 ** 33 + k, 2 ** 48 + k, 2 ** 63 + k, 2 ** 64 - 2 ** 32 + k, 2 ** 64 - 2 ** 31 + k]
+            for hv in huge + [2 ** 31 - 1, 2 ** 32 - 1, 2 ** 63 - 1, 2 ** 64 - 1, 2 ** 31 + n, 2 ** 32 + n]:
+                for ln in (1, 2, 3):
+                    pos = r.randrange(ln)
+                    idx = [r.randrange(n) for _ in range(ln)]
+                    idx[pos] = hv
+                    add(n, idx, ln, ln, "huge-index")
     # ALL pairs of shapes (H = idx.length x n, R = rr x rc) with valid indices, plus larger coincidences
     rng = range(0, SHAPE_BOUND + 1)
     for m, n, rr, rc in list(itertools.product(rng, rng, rng, rng)) + BIG_SHAPES:
